@@ -1,5 +1,7 @@
-//! pvc-ckks: checks C16.  usage: pvc-ckks <Cxx> --tier quick|thorough [--replay f] [--only family]
+//! pvc-ckks: check C16 and the CKKS part of the cross-cutting property C12.
+//! usage: pvc-ckks <Cxx> --tier quick|thorough [--replay f] [--only family]
 
+pub mod c12ckks;
 pub mod c16;
 pub mod ctx;
 pub mod ops;
@@ -18,8 +20,24 @@ fn main() {
             run.finish()
         }};
     }
+    // part of a multi-group property: a replay descriptor of another group's family is not ours (exit code 2)
+    macro_rules! part {
+        ($level:expr, $run:path, $replay:path) => {{
+            let mut run = Run::new(&args, $level);
+            match &args.replay {
+                Some(p) => {
+                    if !$replay(&mut run, &load_replay(p)) {
+                        std::process::exit(2);
+                    }
+                }
+                None => $run(&mut run),
+            }
+            run.finish()
+        }};
+    }
     let code = match args.property.as_str() {
         "C16" => check!("model_checking", c16::run, c16::replay),
+        "C12" => part!("exploration", c12ckks::run, c12ckks::replay),
         o => {
             eprintln!("pvc-ckks: unknown property {o}");
             2
